@@ -448,13 +448,42 @@ func checkC13(e *Engine, r *Report) {
 				r.Check(key, "R12 rollback", "an error exit of Reconfigure after the state change restores the saved policy", e.InstrPos(ret), fn, false,
 					"path without `*p = savedPolicy`: "+e.pathString(p), true)
 			}
-			r.MinInstances("error exits of TA Reconfigure after the state change", nExits, 4)
+			r.MinInstances("error exits of TA Reconfigure after the state change", nExits, 2)
 		}
 		// success installs the given configuration: the revert by re-application (and every later decision,
 		// which reads the package-level options) depends on Reconfigure(cfg) == nil ⇒ options == cfg
-		cfgParamDerived := func(v ssa.Value) bool {
+		// latest store to the same global / the same field of the receiver that dominates a load
+		priorStore := func(ld *ssa.UnOp) *ssa.Store {
+			var best *ssa.Store
+			AllInstrsOf(fn, func(in ssa.Instruction) {
+				st, ok := in.(*ssa.Store)
+				if !ok || !dominatesInstr(st, ld) {
+					return
+				}
+				same := false
+				if g, isG := ld.X.(*ssa.Global); isG {
+					same = st.Addr == ssa.Value(g)
+				} else if fa, isFA := ld.X.(*ssa.FieldAddr); isFA {
+					if fb, isFB := st.Addr.(*ssa.FieldAddr); isFB {
+						same = fieldOfAddr(fa) == fieldOfAddr(fb) && (fa.X == fb.X || sameValue(fa.X, fb.X))
+					}
+				}
+				if same && (best == nil || dominatesInstr(best, st)) {
+					best = st
+				}
+			})
+			return best
+		}
+		var cfgParamDerived func(v ssa.Value) bool
+		cfgParamDerived = func(v ssa.Value) bool {
 			ok := false
 			Origins(v, func(x ssa.Value) bool {
+				if ld, isLd := x.(*ssa.UnOp); isLd && ld.Op == token.MUL {
+					if st := priorStore(ld); st != nil && st.Val != v && cfgParamDerived(st.Val) {
+						ok = true
+						return true
+					}
+				}
 				if ta, isTA := x.(*ssa.TypeAssert); isTA && paramIndex(ta.X) == 1 {
 					ok = true
 					return true
